@@ -262,14 +262,19 @@ class MiniMallocate(RewritePattern):
                 buffers.append(buffer)
                 buffer_ops[buffer.id] = op
 
-                # add uses to the use list
-                for use in op.results[0].uses:
-                    use_op = get_top_level_op(use.operation)
-                    uses[use_op].append(buffer)
-                    if isinstance(use.operation, builtin.UnrealizedConversionCastOp):
-                        for cast_use in use.operation.results[0].uses:
-                            cast_use_op = get_top_level_op(cast_use.operation)
-                            uses[cast_use_op].append(buffer)
+                # add uses to the use list. Casts and views of the buffer (unrealized_conversion_cast,
+                # memref.subview, memref.cast, snax.layout_cast, ...) alias it, so their uses keep the
+                # buffer alive as well: follow them transitively.
+                worklist: list[SSAValue] = [op.results[0]]
+                while worklist:
+                    for use in worklist.pop().uses:
+                        uses[get_top_level_op(use.operation)].append(buffer)
+                        is_cast = isinstance(use.operation, builtin.UnrealizedConversionCastOp)
+                        worklist.extend(
+                            result
+                            for result in use.operation.results
+                            if is_cast or isinstance(result.type, builtin.MemRefType)
+                        )
 
             if op in uses:
                 # udpate lifetime of buffer
